@@ -298,6 +298,19 @@ impl Model {
                         l.regs.insert(key, val);
                     });
                 }
+                Op::FailedGlobalArith { idx, mul } => {
+                    // \multiply by 2147483647 overflows unless the register holds -1, 0 or 1
+                    let v = self.reg(RegKind::Count, *idx).0;
+                    if !*mul || !(-1..=1).contains(&v) {
+                        text.push_str(&format!(
+                            "\\scrollmode\\global{}\\count{} by {} \\errorstopmode ",
+                            if *mul { "\\multiply" } else { "\\divide" },
+                            idx,
+                            if *mul { "2147483647" } else { "0" }
+                        ));
+                        reach.push("prefixed_assignment_failed_recoverably");
+                    }
+                }
                 Op::CopyReg { g, kind, from, to } => {
                     text.push_str(&format!(
                         "{}{}{}={}{} ",
